@@ -8,11 +8,12 @@ cd $WT || exit 2
 LOG=/tmp/seed/$ID.verify.log
 {
 echo "== $ID: existing tests with the change (demo skipped)"
-cargo test -p chitchat --offline --tests -- --skip seeded_demo --skip test_bandwidth_100 --skip test_delay_before_dead_detection_100 2>&1 | grep -E "^test result|FAILED|failed" 
+cargo test -p chitchat --offline --lib --test cluster_test --test perf_test -- --skip seeded_demo --skip test_bandwidth_100 --skip test_delay_before_dead_detection_100 2>&1 | grep -E "^test result|FAILED|failed" 
+DEMO="seeded_demo"; [ -f chitchat/tests/seeded_demo.rs ] && DEMO="--test seeded_demo"
 echo "== demo with the change (expected: FAIL)"
-cargo test -p chitchat --offline seeded_demo 2>&1 | grep -E "^test result|FAILED|failed|panicked" | head -8
+cargo test -p chitchat --offline $DEMO 2>&1 | grep -E "^test result|FAILED|failed|panicked" | head -8
 echo "== demo without the change (expected: ok)"
-git apply -R seeded_patch.diff && cargo test -p chitchat --offline seeded_demo 2>&1 | grep -E "^test result|FAILED|failed" | head -8
+git apply -R seeded_patch.diff && { echo "-- tracked changes left after reverting the patch (expected: at most the demo's mod declaration):"; git diff --stat | cat; } && cargo test -p chitchat --offline $DEMO 2>&1 | grep -E "^test result|FAILED|failed" | head -8
 git apply seeded_patch.diff
 echo "== done"
 } > $LOG 2>&1
